@@ -2,6 +2,7 @@ package envs
 
 import (
 	"encoding/json"
+	"golang.org/x/text/language"
 	"time"
 
 	"github.com/go-playground/validator/v10"
@@ -99,7 +100,13 @@ func NewLocale(l i18n.Language, c i18n.Country) i18n.Locale {
 	if _, err := i18n.ParseLanguage(string(l)); err != nil {
 		return i18n.NilLocale
 	}
-	return i18n.NewLocale(l, c)
+
+	// likewise a country which doesn't make a tag with the language, e.g. "12", is left out
+	locale := i18n.NewLocale(l, c)
+	if _, err := language.Parse(string(locale)); err != nil {
+		return i18n.NewLocale(l, i18n.NilCountry)
+	}
+	return locale
 }
 
 func (e *environment) LocationResolver() LocationResolver { return nil }
